@@ -118,7 +118,7 @@ HooksFrom(c, m, h, idxs, pregen) ==
            gen == IF h = "pre" THEN GenBefore(c, i) ELSE TotalGen(c)
        IN HookInstrs(c, m, h, i, gen)
           \o (IF HookMode(c, i, h) = "raise" THEN <<>> ELSE HooksFrom(c, m, h, Tail(idxs), pregen))
-Hooks(c, m, h) == HooksFrom(c, m, h, HookIdx(c, h), 0)
+Hooks(c, m, h) == HooksFrom(c, m, h, HookIdx(c, m, h), 0)
 HooksDie(c, h) == \E i \in 1..NMw(c) : HookMode(c, i, h) = "raise"
 
 AckInstrs(c, m) ==
